@@ -292,12 +292,17 @@ def run(chk):
             continue
         # --- the history: every StateEntered / StateExited the engine wrote, and the number of task requests, against
         # the log of the reference semantics
-        mode, hp = enginerun.compare_history(c["machine"], m, r.history, len(r.requests))
+        mode, hp, nev = enginerun.compare_history(c["machine"], m, r.history, len(r.requests))
         chk.dist("history.%s" % mode)
+        chk.dist("history.%s.events" % mode, nev)
+        nmode, np_ = enginerun.compare_notifications(m, [n["body"]["detail"] for n in r.notifications], c["input"])
+        chk.dist("notifications.%s" % nmode)
+        hp = hp + np_
         if hp:
             chk.report("impl-differs-from-spec", case, impl={"history": hp, "mode": mode}, model={"fanFail": m.get("fanFail")},
-                       law="the execution history records each state's entry (raw input) and exit (output) as the reference "
-                           "semantics does, and the workers see as many requests", classify=classify)
+                       law="the execution history (every event: type, name, input / output / error, ids 1..n), the status "
+                           "notifications and the number of task requests are those the reference semantics predicts",
+                       classify=classify)
             continue
         if m["failState"] and (r.cause != m["cause"]):
             chk.report("impl-differs-from-spec", case, impl={"cause": r.cause}, model={"cause": m["cause"]},
@@ -311,10 +316,12 @@ def run(chk):
                        "Env.maxData both set to a limit drawn around the data sizes of the case (input size + 0..120, or "
                        "60..600 characters), so that refused transitions and over-long replies occur; smalllimit.* in the "
                        "distribution says how many hit the limit, in which state type, and how the state's Retry/Catch "
-                       "handled it; history: for every compared run the StateEntered (raw input) / StateExited (output) events of "
-                       "the engine's history and the number of task requests are compared with Asl.run's log — as sequences when no "
-                       "fan-out was entered, as multisets when fan-outs ran and none failed, and (a fan-out attempt failed) the "
-                       "engine's exits must be among the model's (history.* in the distribution)" % depth)
+                       "handled it; history: for every compared run the engine's complete history (every event: type, name, input / "
+                       "output / error details with Cause texts masked, ids 1..n; …Aborted events left out), the status "
+                       "notifications (RUNNING with the input, the terminal status with output / error) and the number of task "
+                       "requests are compared with what Asl.run predicts — as sequences when no fan-out was entered, as multisets "
+                       "when fan-outs ran and none failed, and (a fan-out attempt failed) the engine's Execution…, StateExited and "
+                       "LambdaFunctionSucceeded events must be among the model's (history.* in the distribution)" % depth)
 
 
 def replay(chk, path):
